@@ -121,6 +121,7 @@ type RPCPlan struct {
 	StartGate      int  // caller waits for this gate before starting (0 = none)
 	StartDelay     time.Duration
 
+	Role          string // "", "interest", "bystander", "disturber", "fresh"
 	pausedHandler bool
 	neverEnds     bool // the handler only returns when its context ends
 	late          bool // started after the tunnel ended
